@@ -31,6 +31,7 @@ type CEnv struct {
 	fn        *ssa.Function
 	specHeaps map[string]bool // when compiling a spec function: heaps read
 	inSpec    bool
+	oldVars   map[string]*CV // entry-time bindings (parameters), used by old()
 }
 
 func (x *Exec) cvOfVal(v *Val) *CV {
@@ -68,6 +69,10 @@ func (x *Exec) contractEnv(fr *Frame, st *State) *CEnv {
 				}
 			}
 		}
+	}
+	env.oldVars = map[string]*CV{}
+	for k, v := range env.vars {
+		env.oldVars[k] = v
 	}
 	for name, v := range fr.names {
 		if _, ok := env.vars[name]; ok {
@@ -244,6 +249,22 @@ func (x *Exec) eval(env *CEnv, e CExpr) (*CV, error) {
 		return &CV{T: Ite(c, at, bt), Ty: ty}, nil
 	case *CQuant:
 		return x.evalQuant(env, n)
+	case *CAll:
+		var cs []Term
+		for k := n.Lo; k <= n.Hi; k++ {
+			inner := *env
+			inner.vars = map[string]*CV{}
+			for kk, v := range env.vars {
+				inner.vars[kk] = v
+			}
+			inner.vars[n.Var] = &CV{Const: big.NewInt(k)}
+			t, err := x.evalBool(&inner, n.Body)
+			if err != nil {
+				return nil, err
+			}
+			cs = append(cs, t)
+		}
+		return &CV{T: And(cs...), Ty: types.Typ[types.Bool]}, nil
 	case *CCall:
 		return x.evalCall(env, n)
 	case *CIndex:
@@ -537,7 +558,24 @@ func (x *Exec) evalQuant(env *CEnv, n *CQuant) (*CV, error) {
 	if !n.Forall {
 		q = "exists"
 	}
-	return &CV{T: T(SBool, "(%s (%s) %s)", q, strings.Join(binders, " "), body.S), Ty: types.Typ[types.Bool]}, nil
+	bs := body.S
+	// absolute-index form: when a bound variable k occurs as a slice index only
+	// in the shape (bvadd OFF k), quantify over a = OFF + k instead (a bijection
+	// on 64-bit vectors). Triggers then are plain (select A a), which survive
+	// the solvers' arithmetic normalisation.
+	for i, v := range n.Vars {
+		name := inner.vars[v.Name].T.S
+		if inner.vars[v.Name].T.Sort != SBV64 {
+			continue
+		}
+		if off, ok := soleIndexOffset(bs, name); ok {
+			abs := strings.Replace(name, "!q", "!abs", 1)
+			bs = strings.ReplaceAll(bs, "(bvadd "+off+" "+name+")", abs)
+			bs = strings.ReplaceAll(bs, name, "(bvsub "+abs+" "+off+")")
+			binders[i] = fmt.Sprintf("(%s %s)", abs, SBV64)
+		}
+	}
+	return &CV{T: T(SBool, "(%s (%s) %s)", q, strings.Join(binders, " "), bs), Ty: types.Typ[types.Bool]}, nil
 }
 
 func (x *Exec) evalIndex(env *CEnv, n *CIndex) (*CV, error) {
@@ -718,6 +756,15 @@ func (x *Exec) evalCall(env *CEnv, n *CCall) (*CV, error) {
 		}
 		e2 := *env
 		e2.st = env.old
+		if env.oldVars != nil {
+			e2.vars = map[string]*CV{}
+			for k, v := range env.vars {
+				e2.vars[k] = v
+			}
+			for k, v := range env.oldVars {
+				e2.vars[k] = v
+			}
+		}
 		return x.eval(&e2, n.Args[0])
 	case "pre": // value at loop entry
 		e2 := *env
@@ -833,6 +880,25 @@ func (x *Exec) evalCall(env *CEnv, n *CCall) (*CV, error) {
 		}
 		return &CV{T: sOff(x.cvTerm(v, nil)), Ty: types.Typ[types.Int]}, nil
 	}
+	if n.Fun == "string" && len(n.Args) == 1 {
+		v, err := x.eval(env, n.Args[0])
+		if err != nil {
+			return nil, err
+		}
+		t := x.cvTerm(v, nil)
+		if t.Sort == SStr {
+			return &CV{T: t, Ty: types.Typ[types.String]}, nil
+		}
+		if t.Sort != SSlice {
+			return nil, fmt.Errorf("string() of sort %s", t.Sort)
+		}
+		x.useGsOf()
+		if env.specHeaps != nil {
+			env.specHeaps[x.heapName(SBV8)] = true
+		}
+		h := x.heap(env.st, SBV8)
+		return &CV{T: T(SStr, "(gs.of %s %s %s)", Select(h, sBase(t)).S, sOff(t).S, sLen(t).S), Ty: types.Typ[types.String]}, nil
+	}
 	// model-specific builtins (ghost database etc.)
 	if f, ok := contractBuiltins[n.Fun]; ok {
 		return f(x, env, n)
@@ -903,6 +969,8 @@ func basicTypeByName(s string) types.Type {
 		return types.Typ[types.Uint32]
 	case "uint64":
 		return types.Typ[types.Uint64]
+	case "uintptr":
+		return types.Typ[types.Uintptr]
 	}
 	return nil
 }
@@ -1056,6 +1124,63 @@ func (x *Exec) compileSpec(env *CEnv, sp *SpecFunc) (*compiledSpec, error) {
 	for _, h := range cs.heaps {
 		bs = strings.ReplaceAll(bs, h+"_init", "h_"+h)
 	}
+	if sp.Opaque {
+		// uninterpreted symbol + definitional axiom triggered on its applications
+		var sorts, names []string
+		for _, b := range all {
+			f := strings.SplitN(strings.TrimSuffix(strings.TrimPrefix(b, "("), ")"), " ", 2)
+			names = append(names, f[0])
+			sorts = append(sorts, f[1])
+		}
+		app := "(" + cs.name + " " + strings.Join(names, " ") + ")"
+		x.sc.Decl("spec:"+key, fmt.Sprintf("(declare-fun %s (%s) %s)\n(assert (forall (%s) (! (= %s %s) :pattern (%s))))",
+			cs.name, strings.Join(sorts, " "), cs.retS, strings.Join(all, " "), app, bs, app))
+		return cs, nil
+	}
 	x.sc.Decl("spec:"+key, fmt.Sprintf("(define-fun-rec %s (%s) %s\n  %s)", cs.name, strings.Join(all, " "), cs.retS, bs))
 	return cs, nil
+}
+
+// soleIndexOffset finds the unique OFF such that every occurrence of
+// "(bvadd OFF name)" uses the same OFF, and at least one exists.
+func soleIndexOffset(body, name string) (string, bool) {
+	needle := " " + name + ")"
+	off := ""
+	found := false
+	for i := 0; ; {
+		j := strings.Index(body[i:], needle)
+		if j < 0 {
+			break
+		}
+		end := i + j // position of the space before name
+		i = end + len(needle)
+		// walk back to the matching "(bvadd "
+		depth, k := 0, end-1
+		for ; k >= 0; k-- {
+			if body[k] == ')' {
+				depth++
+			} else if body[k] == '(' {
+				if depth == 0 {
+					break
+				}
+				depth--
+			}
+		}
+		if k < 0 || !strings.HasPrefix(body[k:], "(bvadd ") {
+			continue
+		}
+		o := body[k+len("(bvadd ") : end]
+		// o must be a single s-expression
+		if sortEnd(o, 0) != len(o) {
+			continue
+		}
+		if strings.Contains(o, name) {
+			continue
+		}
+		if found && o != off {
+			return "", false
+		}
+		off, found = o, true
+	}
+	return off, found
 }
